@@ -597,6 +597,12 @@ def hypothesis_cases(rng):
     out.append(("fixed:quote_in_delimiter_or_missing", S([F("a", "string", fill="z")], m="it's"), [["x", "z"]]))
     out.append(("fixed:fill_resolved_by_yaml", S([F("a", "string", fill=str(rng.choice(["010", "true", "null", "~", "0x10", "1_0"])))]), [["x"]]))
     out.append(("fixed:fill_resolved_by_yaml", S([F("a", "integer", fill="010")]), [[1, 10, 8]]))
+    # rows that consist of delimiters only (every cell equals its fill and the missing marker is empty): the written line is
+    # whitespace-only for a tab delimiter and must still be read back as a row
+    out.append(("inside:whitespace_only_row", S([F("a", "string", fill="z"), F("b", "integer", fill="7")], d="\t", m=""),
+                [["x", "z", "y", "z"], [1, 7, 2, 7]]))
+    out.append(("inside:whitespace_only_row", S([F("a", "float", fill="NaN"), F("b", "float", fill="0"), F("c", "string", fill="")], d="\t", m=""),
+                [[float("nan"), 1.5], [0.0, 2.5], ["", "q"]]))
     out.append(("fixed:unit_not_plain_scalar", S([F("a", "float", fill="NaN", unit=str(rng.choice(["%", "m: s", "a #b"])))]), [[1.0]]))
     out.append(("fixed:csv_line_is_yaml_fence", S([F("a", "string", fill="z")]), [["x", "---", "y"]]))
     out.append(("fixed:csv_line_is_yaml_fence", S([F(n, "string", fill="z") for n in "abcd"], d="-", m="?"), [["", "x"]] * 4))
